@@ -8,7 +8,23 @@ from .history import run_history, history_candidates, describe_history
 from ..engine import Outcome
 
 OPT_ATOMS = ["plat", "shift", "posix", "posixleak", "alloca", "incdiv", "incast", "cstyle", "aiob", "zerodiv", "unread",
-             "constparam", "ptrcast", "known", "nullred", "aiobcond", "uninit", "byvalue", "postfix", "member", "branches", "branches", "tstr", "tstr", "win64", "defval", "defval"]
+             "constparam", "ptrcast", "known", "nullred", "aiobcond", "uninit", "byvalue", "postfix", "member", "branches", "branches", "vfiter", "vfiter", "wchar2", "gnulib", "winlib", "c11assert", "cpp11assert", "override", "manycfg", "tstr", "tstr", "win64", "defval", "defval"]
+
+
+# atoms whose findings depend on the option (tools/opt_sensitivity.py checks that every pair of pool values is told apart)
+SENSITIVE = {
+    "--platform": ["plat", "shift", "tstr", "win64", "wchar2", "winlib"],
+    "--std": ["alloca", "c11assert", "cpp11assert", "override"],
+    "--language": ["cstyle", "alloca", "c11assert", "byvalue"],
+    "--library": ["posix", "posixleak", "gnulib", "winlib"],
+    "-D": ["defval", "manycfg"], "-U": ["defval"], "-I": ["zerodiv"],
+    "--inconclusive": ["incdiv", "incast"],
+    "--max-configs": ["manycfg", "defval"],
+    "--check-level": ["branches", "vfiter"],
+    "--enable": ["unread", "constparam", "ptrcast", "known", "byvalue", "postfix"],
+    "--suppress": ["zerodiv", "aiob", "unread"],
+    "--inline-suppr": ["zerodiv", "aiob", "uninit"],
+}
 
 
 class C19(PropBase):
@@ -27,15 +43,24 @@ class C19(PropBase):
 
     def generate(self, seed, tier, idx):
         rng = Rng(seed)
-        proj = gen.gen_project(rng, n_units=rng.randint(1, 4), inline=0.2, atoms=OPT_ATOMS, cfg_blocks=0.6, max_atoms=6,
-                               wp=rng.chance(0.4))
+        # focused scenario: one option is walked through all its values (every pair of values meets on one build dir), over a
+        # project made of material sensitive to that option; otherwise a random walk over all options
+        keys = sorted(gen.OPTION_POOL)
+        focus = rng.choice(keys) if rng.chance(0.6) else None
+        if focus:
+            proj = gen.gen_project(rng, n_units=rng.randint(1, 3), inline=0.3 if focus == "--inline-suppr" else 0.1, atoms=SENSITIVE[focus] * 3 + OPT_ATOMS[:8],
+                                   cfg_blocks=0.9 if focus in ("-D", "-U", "--max-configs") else 0.2, max_atoms=5, wp=rng.chance(0.2))
+        else:
+            proj = gen.gen_project(rng, n_units=rng.randint(1, 4), inline=0.2, atoms=OPT_ATOMS, cfg_blocks=0.6, max_atoms=6,
+                                   wp=rng.chance(0.4))
         tree = proj["tree"]
         # -I sensitive material: a header only found with -Iinc
-        if rng.chance(0.5):
+        if rng.chance(0.5) or focus == "-I":
             tree["inc/onlyinc.h"] = ["static inline int oi(int y){return y/0;}", "#define ONLYINC 1"]
             tree["inc2/onlyinc.h"] = ["static inline void oi2(void){int *p=0;*p=1;}", "#define ONLYINC 2"]
+            tree["inc/second.h"] = ["static inline int os(int y){return 7/(y-y);}"]     # only reachable through the second -I of "-Iinc2 -Iinc"
             u = rng.choice(proj["units"])
-            tree[u] = ['#include "onlyinc.h"', "#if defined(ONLYINC) && ONLYINC==1\nvoid fo(void){int q[2];q[2]=0;}\n#endif"] + tree[u]
+            tree[u] = ['#include "onlyinc.h"\n#include "second.h"', "#if defined(ONLYINC) && ONLYINC==1\nvoid fo(void){int q[2];q[2]=0;}\n#endif"] + tree[u]
             if proj["langs"][u] == "cpp":
                 tree[u] = [tree[u][2]] + tree[u][:2] + tree[u][3:]
         base = gen.gen_option_set(rng, density=0.3)
@@ -43,11 +68,11 @@ class C19(PropBase):
             base["--enable"] = "--enable=style,warning,performance,portability"
         hist = [{"opts": base}, {"run": gen_run(rng)}]
         cur = dict(base)
-        keys = sorted(gen.OPTION_POOL)
-        for _ in range(rng.randint(1, 4)):
+        walk = rng.shuffle(list(gen.OPTION_POOL[focus]))[:5] if focus else []
+        for step in range(len(walk) if focus else rng.randint(1, 4)):
             new = dict(cur)
-            for k in rng.sample(keys, rng.choice([1, 1, 1, 2, 3])):
-                v = rng.choice(gen.OPTION_POOL[k])
+            for k in ([focus] if focus else rng.sample(keys, rng.choice([1, 1, 1, 2, 3]))):
+                v = walk[step] if focus else rng.choice(gen.OPTION_POOL[k])
                 if v:
                     new[k] = v
                 else:
